@@ -4,6 +4,11 @@ import json, os, sys
 HERE = os.path.dirname(os.path.dirname(os.path.abspath(__file__)))
 
 CHECKS = {
+ "C04": dict(
+   technique="metamorphic property-based testing: variants built from clean base URLs by composed transformations of a harness-owned documented-irrelevant catalogue; exhaustive permutation/position sweep; string equality",
+   text="Base URLs from a clean grammar and 1-4 composed transformations (scheme, userinfo, irrelevant subdomains incl. amp./amp-, default port, host case, trailing slash, index page, plain fragment, every frozen tracking/session/AMP item at every position, all permutations of <=4 items, '&amp;' spellings, escape spelling, punycode, dot segments, whitespace, control characters), under default / quoted / platform_aware kwargs; redirect-wrapped URLs for the pre-step law.",
+   note="Trusted base: vlib/transforms.py and vlib/lists.py (frozen copies of the documentation). Composition rules (at most one transformation per kind, amp- glued only onto the site's own label) are listed in evidence.assumptions.",
+   design="§4 C04"),
  "C05": dict(
    technique="property-based testing with a component-wise reference oracle (reference parser + frozen irrelevance lists) over a normalize-oriented URL grammar x option sets, incl. single-option flip comparisons",
    text="Generated URLs rich in the features the options act on (and look-alikes), plus unparseable strings, under defaults / all single and pairwise option deviations / uniform samples of the 2^9 x 3 option cube (thorough: the whole cube on a panel): host labels only deleted if whole and irrelevant, non-default port kept, path changed by at most trailing slash / index page / AMP marker as the options allow, query items only dropped if irrelevant with order kept unless sorting, fragment rule per strip_fragment, unparseable input returned unchanged; each case also compares the 10 single-option flips so that an option changes only its own component.",
